@@ -4,6 +4,7 @@ def b_Shape_create_node : CR.SrcW.Builder where
   kind := .list
   tag := ""
   xsd := "shape"
+  path := []
   parent := ""
   attrs := []
   gattrs := []
